@@ -1,9 +1,47 @@
 import Mahotas.Model.C01
+import Mahotas.Model.C02
+import Mahotas.Model.C03
+import Mahotas.Model.C04
+import Mahotas.Model.C05
+import Mahotas.Model.C06
+import Mahotas.Model.C07
+import Mahotas.Model.C08
+import Mahotas.Model.C09
+import Mahotas.Model.C10
+import Mahotas.Model.C11
+import Mahotas.Model.C12
+import Mahotas.Model.C13
+import Mahotas.Model.C14
+import Mahotas.Model.C15
+import Mahotas.Model.C16
+import Mahotas.Model.C17
+import Mahotas.Model.C18
+import Mahotas.Model.C19
+import Mahotas.Model.C20
 open Mahotas
 
 def dispatch (a : Args) : String :=
   match a.op with
   | "c01" => C01.handle a
+  | "c02" => C02.handle a
+  | "c03" => C03.handle a
+  | "c04" => C04.handle a
+  | "c05" => C05.handle a
+  | "c06" => C06.handle a
+  | "c07" => C07.handle a
+  | "c08" => C08.handle a
+  | "c09" => C09.handle a
+  | "c10" => C10.handle a
+  | "c11" => C11.handle a
+  | "c12" => C12.handle a
+  | "c13" => C13.handle a
+  | "c14" => C14.handle a
+  | "c15" => C15.handle a
+  | "c16" => C16.handle a
+  | "c17" => C17.handle a
+  | "c18" => C18.handle a
+  | "c19" => C19.handle a
+  | "c20" => C20.handle a
   | "ping" => "pong"
   | op => s!"error=unknown-op-{op}"
 
